@@ -1,5 +1,6 @@
 use crate::util::Args;
 pub mod c01;
+pub mod c02;
 pub mod c05;
 pub mod c06;
 pub mod c08;
@@ -21,6 +22,8 @@ pub fn dispatch(a: &Args) {
 		"c15r" => chist::run_restore(a),
 		"c12h" => chist::run(a, "C12"),
 		"c01" => c01::run(a),
+		"c02" => c02::run(a, "C02"),
+		"c11" => c02::run(a, "C11"),
 		"c05" => c05::run(a),
 		"c06" => c06::run(a),
 		"c06child" => c06::child(a),
